@@ -223,6 +223,92 @@ def productForms (g : Cfg) (prot : Pep) (nf closed : Bool) (endNF : Bool) : List
   let all := if g.w2f then base ++ base.flatMap w2fImages else base
   all.filter (pepOk g.cleave)
 
+/-! ### compiled form of `productForms`
+`productForms` generates every W→F image of every raw product before it applies the length and
+mass limits: a product with k tryptophans has 2^k − 1 images, and enzymes with rare sites
+(caspases, enterokinase) leave products of several hundred residues.  The images have the
+length of their product, so products beyond `maxLen` contribute nothing.  `productFormsFast`
+skips them; the two functions are EQUAL (as lists, same order) and the equation is registered
+with `@[csimp]` HERE, before the callers below are compiled, so the native driver runs the fast
+one wherever `productForms` occurs while every theorem keeps talking about the definition. -/
+
+theorem w2fImages_go_length (p : Pep) : ∀ q ∈ w2fImages.go p, q.1.length = p.length := by
+  induction p with
+  | nil => intro q hq; simp [w2fImages.go] at hq; subst hq; rfl
+  | cons c cs ih =>
+    intro q hq
+    simp only [w2fImages.go] at hq
+    split at hq
+    · rcases List.mem_append.mp hq with h | h
+      · obtain ⟨r, hr, rfl⟩ := List.mem_map.mp h
+        simp [ih r hr]
+      · obtain ⟨r, hr, rfl⟩ := List.mem_map.mp h
+        simp [ih r hr]
+    · obtain ⟨r, hr, rfl⟩ := List.mem_map.mp hq
+      simp [ih r hr]
+
+/-- a W→F image has the length of its peptide -/
+theorem w2fImages_length (p q : Pep) (h : q ∈ w2fImages p) : q.length = p.length := by
+  unfold w2fImages at h
+  obtain ⟨⟨r, b⟩, hr, hq⟩ := List.mem_filterMap.mp h
+  cases b with
+  | false => simp at hq
+  | true =>
+    simp at hq
+    subst hq
+    exact w2fImages_go_length p (r, true) hr
+
+theorem filter_flatMap' {α β : Type} (l : List α) (f : α → List β) (p : β → Bool) :
+    (l.flatMap f).filter p = l.flatMap fun a => (f a).filter p := by
+  induction l with
+  | nil => rfl
+  | cons a l ih => simp [List.flatMap_cons, List.filter_append, ih]
+
+theorem flatMap_filter_of_nil {α β : Type} (l : List α) (h : α → List β) (q : α → Bool)
+    (hq : ∀ a, q a = false → h a = []) : l.flatMap h = (l.filter q).flatMap h := by
+  induction l with
+  | nil => rfl
+  | cons a l ih =>
+    cases hqa : q a with
+    | true => simp [hqa, List.flatMap_cons, ih]
+    | false => simp [hqa, List.flatMap_cons, ih, hq a hqa]
+
+/-- the forms of the products of one protein, W→F images only of products within `maxLen` -/
+def productFormsFast (g : Cfg) (prot : Pep) (nf closed : Bool) (endNF : Bool) : List Pep :=
+  let raw := rawProducts g.cleave prot nf (endNF && !closed)
+  let secs := if g.sect then raw.flatMap sectForms else []
+  let base := raw ++ secs
+  if g.w2f then
+    base.filter (pepOk g.cleave) ++
+      ((base.filter fun p => decide (p.length ≤ g.cleave.maxLen)).flatMap fun p =>
+        (w2fImages p).filter (pepOk g.cleave))
+  else base.filter (pepOk g.cleave)
+
+theorem w2f_filter_nil (c : CleaveCfg) (p : Pep) (h : decide (p.length ≤ c.maxLen) = false) :
+    (w2fImages p).filter (pepOk c) = [] := by
+  apply List.filter_eq_nil_iff.mpr
+  intro q hq
+  have hl := w2fImages_length p q hq
+  have : ¬ p.length ≤ c.maxLen := by simpa using h
+  simp [pepOk, hl, this]
+
+theorem productForms_eq_fast' (g : Cfg) (prot : Pep) (nf closed endNF : Bool) :
+    productForms g prot nf closed endNF = productFormsFast g prot nf closed endNF := by
+  unfold productForms productFormsFast
+  cases hw : g.w2f with
+  | false => simp
+  | true =>
+    simp only [if_true]
+    rw [List.filter_append, filter_flatMap']
+    congr 1
+    exact flatMap_filter_of_nil _ _ (fun p => decide (p.length ≤ g.cleave.maxLen))
+      (fun a ha => w2f_filter_nil g.cleave a ha)
+
+@[csimp] theorem productForms_eq_fast : @productForms = @productFormsFast := by
+  funext g prot nf closed endNF
+  exact productForms_eq_fast' g prot nf closed endNF
+
+
 /-- every peptide form the transcript sequence `seq` gives under the allowed reading frames -/
 def peptidesOf (g : Cfg) (t : TxIn) (seq : List Char) (sec : List Nat) (endNF : Bool) : List Pep :=
   (orfStarts t seq).flatMap fun s =>
